@@ -246,6 +246,41 @@ func srcLiterals(repo string, env map[string]uint64) (map[string]uint64, map[str
 		missing = append(missing, "parseString")
 	}
 
+	// the index-buffer fill limit each in-slice kernel wrapper hands to the assembly: the
+	// argument that follows unsafe.Pointer(index) in the call of _find_structural_bits_in_slice*
+	for _, w := range []struct{ fn, callee, name string }{
+		{"find_structural_bits_in_slice", "_find_structural_bits_in_slice", "sliceLimitAVX2"},
+		{"find_structural_bits_in_slice_avx512", "_find_structural_bits_in_slice_avx512", "sliceLimitAVX512"},
+	} {
+		okL := false
+		if fd := findFunc(files, w.fn); fd != nil {
+			ast.Inspect(fd.Body, func(n ast.Node) bool {
+				ce, ok := n.(*ast.CallExpr)
+				if !ok {
+					return true
+				}
+				id, ok := ce.Fun.(*ast.Ident)
+				if !ok || id.Name != w.callee {
+					return true
+				}
+				for k := 0; k+1 < len(ce.Args); k++ {
+					if c2, ok := ce.Args[k].(*ast.CallExpr); ok && len(c2.Args) == 1 {
+						if a, ok := c2.Args[0].(*ast.Ident); ok && a.Name == "index" {
+							if v, ok := evalConst(ce.Args[k+1], env); ok {
+								out[w.name] = v
+								okL = true
+							}
+						}
+					}
+				}
+				return true
+			})
+		}
+		if !okL {
+			missing = append(missing, w.fn+".limit")
+		}
+	}
+
 	// appendFloat: the two ES6 thresholds, as written
 	if fd := findFunc(files, "appendFloat"); fd != nil {
 		var fl []string
